@@ -2,7 +2,7 @@
    from the current /repo sources (Gen/GenGuards.v; the translator also checks that import_filtered_genes calls
    check_strand and makes Gene_Name the index with verify_integrity=True). *)
 From Coq Require Import ZArith NArith List Bool.
-From TEV Require Import Model.Guards Model.Pipeline Gen.GenGuards Proofs.GuardsP Proofs.RunP.
+From TEV Require Import Model.Guards Model.Pipeline Gen.GenGuards Proofs.GuardsP Proofs.RunP Proofs.C18P.
 Import ListNotations.
 
 (* the chromosome check of the code is the model's, which accepts two sorted key lists iff they are equal *)
@@ -16,6 +16,18 @@ Proof. intros genes tes. rewrite gen_validate_split_ok. apply validate_split_iff
 Theorem c18_code_check_strand : forall genes, gen_check_strand (map g_strand genes) = forallb strand_ok genes.
 Proof. exact gen_check_strand_ok. Qed.
 
+(* the explicit column test of the TE import (the names of the code, numbered Chromosome 0, Start 1, Stop 2, Order 3, SuperFamily 4,
+   Strand 5, Length 6) refuses exactly the headers that lack one of the model's required TE columns *)
+Definition tcol_code (c : tcol) : N :=
+  match c with TChrom => 0 | TStart => 1 | TStop => 2 | TOrder => 3 | TSuper => 4 | TStrand => 5 | TLength => 6 end%N.
+Theorem c18_code_te_columns : forall th, gen_te_columns_accepted (map tcol_code th) = has_all tcol_eqb t_required th.
+Proof.
+  intro th. unfold gen_te_columns_accepted, gen_te_required_columns, has_all, t_required. cbn [forallb].
+  assert (E : forall c, existsb (N.eqb (tcol_code c)) (map tcol_code th) = existsb (tcol_eqb c) th).
+  { intro c. induction th as [|x r IH]; [reflexivity|]. cbn [map existsb]. rewrite IH. f_equal. destruct c, x; reflexivity. }
+  rewrite <- (E TChrom), <- (E TStart), <- (E TStop), <- (E TOrder), <- (E TSuper). reflexivity.
+Qed.
+
 Example c18_code_example :
   gen_validate_split [1; 2; 10]%N [1; 10; 2]%N = false /\ gen_validate_split [1; 2]%N [1; 2; 3]%N = false /\
   gen_check_strand [0; 1; 2; 1]%N = true /\ gen_check_strand [0; 3; 1]%N = false.
@@ -24,3 +36,4 @@ Proof. vm_compute. repeat split. Qed.
 Print Assumptions c18_code_validate_split.
 Print Assumptions c18_code_validate_split_iff.
 Print Assumptions c18_code_check_strand.
+Print Assumptions c18_code_te_columns.
